@@ -174,7 +174,7 @@ func runC10(r *Run) {
 		}
 	}
 	r.floor("R10.4", 12)
-	ruleAddressLists(r, "R10.4")
+	ruleAddressLists(r, "R10.4", false)
 	r.floor("R10.5", 6)
 	r.floor("R10.6", 4)
 	ruleLoadSampling(r, "R10.5", "R10.6")
@@ -195,7 +195,7 @@ func runC10(r *Run) {
 // ---------------------------------------------------------------------------
 // R10.4: the address lists the variants probe, lock and route on are exact.
 
-func ruleAddressLists(r *Run, rule string) {
+func ruleAddressLists(r *Run, rule string, all bool) {
 	a := analyseISA(r.W)
 	sb := newSpecBuilder(a)
 	if sb == nil {
@@ -204,7 +204,7 @@ func ruleAddressLists(r *Run, rule string) {
 	}
 	for _, op := range a.ops {
 		sp := sb.spec(op.mnemonic)
-		if sp == nil || (sp.memRead == nil && sp.memWrite == nil) {
+		if sp == nil || (!all && sp.memRead == nil && sp.memWrite == nil) {
 			continue
 		}
 		addressLists(r, rule, "risc.(*"+op.typeName+")", op, sp)
